@@ -95,7 +95,9 @@ def events_from_counts(counts, xe, ye):
 
 
 def cases(tier, seed):
-    grids = [((2, 3), 2)] if tier == 'quick' else [((2, 3), 2), ((3, 3), 2), ((2, 3), 3), ((1, 4), 3), ((4, 4), 1)]
+    # (grids with a single bin along one axis: 1 x k and k x 1, k up to 6)
+    grids = [((2, 3), 2), ((1, 4), 1), ((5, 1), 1), ((1, 6), 1)] if tier == 'quick' else \
+        [((2, 3), 2), ((3, 3), 2), ((2, 3), 3), ((1, 4), 3), ((4, 4), 1), ((5, 1), 2), ((1, 6), 2), ((6, 1), 1), ((1, 1), 3), ((1, 2), 3), ((3, 1), 3)]
     for (nx, ny), maxc in grids:
         total = (maxc + 1) ** (nx * ny)
         block = 27 if tier == 'quick' else 81
